@@ -32,6 +32,12 @@ INPUT_Q = {
     "bits6": ("quantized_bits(6,2,1)", 3.875, -4.0),       # symmetric=1: min code -3.875
     "relu4": ("quantized_relu(4,1)", 1.875, 0.0),
     "bits3": ("quantized_bits(3,0,1)", 0.75, -0.75),
+    # the other activation quantizers the type map knows
+    "tanh4": ("quantized_tanh(4)", 0.875, -1.0),
+    "bin": ("binary(alpha=1.0)", 1.0, -1.0),
+    "tern": ("ternary(alpha=1.0)", 1.0, -1.0),
+    "rpo2": ("quantized_relu_po2(4,max_value=4)", 4.0, 0.0),
+    "po2": ("quantized_po2(4,max_value=2)", 2.0, -2.0),
 }
 BIAS_Q = {
     "none": None,
@@ -77,11 +83,13 @@ def main():
                                   sorted(BIAS_Q), (1, 2)))
   rnd.shuffle(combos)
   if tier == "quick":
-    combos = combos[:170]
+    combos = combos[:240]
   events, errors = [], []
   for j, (kind, wq, iq, bq, depth) in enumerate(combos):
     if j % nshards != shard:
       continue
+    if iq == "rpo2" and wq.startswith("po2"):
+      continue        # po2 x relu_po2 products are decided (and recorded, F-C16-4) at type level; nothing to add end to end
     meta = {"kind": kind, "wq": wq, "iq": iq, "bq": bq, "depth": depth}
     try:
       shape = {"dense": (5,), "conv2d": (4, 4, 2), "conv1d": (6, 2), "depthwise": (4, 4, 2)}[kind]
